@@ -105,10 +105,13 @@ def run(ck):
     nsites = 0
     nfun = 0
     for p in sorted(c.paths()):
-        if not re.search(r"::v[01]::host::[a-z_0-9]+$", p):
+        if "{closure" in p or "::utils::TestHost" in p or re.search(r"utils::.*Host<.*>>::call$", p):
+            continue  # utils::TestHost is the off-chain test host
+        bs = c.get_all(p)
+        if len(bs) != 1:
             continue
-        f = Fn(c.get(p))
-        mem = [l for l, nm in f.names().items() if nm == "memory" and l <= f.argc]
+        f = Fn(bs[0])
+        mem = [l for l, nm in f.names().items() if nm == "memory" and l <= f.argc and re.search(r"\[u8\]|Vec<u8>", f.locals[l])]
         if not mem:
             continue
         sites = rules.slice_sites(f, mem[0])
@@ -149,6 +152,53 @@ def run(ck):
                 ck.ob("DOM", p, "work:%s#%d" % (nm, n), True, "documented exception: " + CHARGE_EXCEPTIONS[p], f.loc(bi), nontrivial=False)
                 continue
             ck.ob("DOM", p, "work:%s#%d" % (nm, n), dominated, how if dominated else "proportional work %s is not preceded by an energy charge" % nm, f.loc(bi))
+
+    # ---- a. declared ABI == stack use of the host function that the tag dispatches to
+    from vlib import abi
+    ABI_EXC = {"invoke": "the result (i64) is pushed by resume_receive after the interrupt", "upgrade": "the result (i64) is pushed by resume_receive after the interrupt"}
+    for ver, host_types in (("v1", ("InitHost", "ReceiveHost")), ("v0", ("InitHost", "ReceiveHost"))):
+        vf = find_impl(ck, "sc", E, r"%s::types::ConcordiumAllowedImports$" % ver, r"ValidateImportExport$", "validate_import_function")
+        tf = find_impl(ck, "sc", E, r"%s::types::ProcessedImports$" % ver, r"TryFromImport$", "try_from_import")
+        if not (vf and tf):
+            continue
+        ET = "%s::%s::types::ImportFunc" % (E, ver)
+        t1 = abi.declared_types(vf)
+        t2 = abi.import_tags(tf, ET)
+        ck.floor("TAB", "%s declared import types" % ver, len(t1), 20 if ver == "v0" else 35)
+        hosts = {}
+        for pth in c.paths():
+            if re.search(r"::%s::.*Host<.*> as concordium_wasm::machine::Host<concordium_smart_contract_engine::%s::types::ProcessedImports>>::call$" % (ver, ver), pth):
+                hf = Fn(c.get(pth))
+                hosts[pth] = abi.dispatch(hf, c.adts, ET, re.compile(r"::v[01]::host::[a-z_0-9]+$"))
+        ck.floor("TAB", "%s Host::call implementations" % ver, len(hosts), 2)
+        for name, (params, res) in sorted(t1.items()):
+            tag = t2.get(name)
+            if not ck.ob("TAB", "%s import `%s`" % (ver, name), "has-tag", tag is not None, "validated import is translated to tag %s" % (tag,), vf.loc()):
+                continue
+            fns = set()
+            for hp, tab in hosts.items():
+                fns |= tab.get(tag, set())
+            if not ck.ob("TAB", "%s import `%s`" % (ver, name), "dispatched", len(fns) >= 1, "tag %s dispatches to %s" % (tag, sorted(x.split("::")[-1] for x in fns)), vf.loc()):
+                continue
+            want = [x for x in (params or "[]").strip("[]").split(",") if x]
+            for hfn in sorted(fns):
+                g = Fn(c.get(hfn))
+                pops, pushes = abi.stack_use(g, c)
+                okp = pops == list(reversed(want))
+                ck.ob("TAB", "%s import `%s`" % (ver, name), "params:" + hfn.split("::")[-1], okp,
+                      "declared parameters %s; %s pops %s (last parameter first)" % (want, hfn.split("::")[-1], pops), g.loc(),
+                      sample=dict(rule="TAB", import_name=name, declared=[params, res], tag="%s::%s" % tag, host_fn=hfn.split("::")[-1], pops=pops, pushes=pushes))
+                if res == "None":
+                    okr = not pushes
+                elif res in ("Some(I32)", "Some(I64)"):
+                    wantt = {"Some(I32)": {"u32", "i32"}, "Some(I64)": {"u64", "i64"}}[res]
+                    okr = bool(pushes) and set(pushes) <= wantt
+                    if not pushes and name in ABI_EXC:
+                        ck.ob("TAB", "%s import `%s`" % (ver, name), "result:" + hfn.split("::")[-1], True, "documented exception: " + ABI_EXC[name], g.loc(), nontrivial=False)
+                        continue
+                else:
+                    okr = False
+                ck.ob("TAB", "%s import `%s`" % (ver, name), "result:" + hfn.split("::")[-1], okr, "declared result %s; pushes %s" % (res, pushes), g.loc())
 
     # ---- d. limits
     K = E + "::constants::"
